@@ -2576,7 +2576,11 @@ class DiskObjectStore(PackBasedObjectStore):
             # Look for MIDX in pack directory
             midx_file = os.path.join(self.pack_dir, "multi-pack-index")
             if os.path.exists(midx_file):
-                self._midx = load_midx(midx_file)
+                try:
+                    self._midx = load_midx(midx_file)
+                except FileNotFoundError:
+                    # Removed since we looked, e.g. by a concurrent repack
+                    pass
         return self._midx
 
     def _get_pack_by_name(self, pack_name: str) -> Pack:
